@@ -170,8 +170,12 @@ def run(ctx):
     cap_pop = {}
     restore = {}          # (variant index) -> set of pushed chars
     variants = None
+    # the pending-sign enum: the payload type of the method struct's pending field (found by role, whatever it is called)
+    _fx2 = builders.fixed_ty(prog)
+    pend_ty = (builders.method_roles(prog)[_fx2]["fields"].get(pend) or "") if pend else ""
+    pend_ty = pend_ty[len("std::option::Option<"):-1] if pend_ty.startswith("std::option::Option<") else pend_ty
     for a in prog.doc["adts"]:
-        if a["path"].endswith("PendingKar"):
+        if a["path"] == pend_ty and a.get("kind") == "enum":
             variants = [v["name"] for v in a["variants"]]
     if not variants:
         r2.undecidable("enum", "pending-sign enum not found")
